@@ -61,7 +61,7 @@ pub fn c05(ctx: &Ctx, subj: &dyn DynSubject, ty: &Ty, rep: &mut Report) {
             Err(p) => return Err(Fail::new(&format!("derive-full-panic:{}", panic_class(&p)), format!("full-copy panicked: {}", p))),
         }
         let l2 = real_max_unit(&events).next_power_of_two();
-        for (what, pl) in [("page-aligned", Placed::new(&bytes, 4096, 0)), ("odd multiple of the unit", Placed::new(&bytes, 2 * l2, l2))] {
+        for (what, pl) in [("page-aligned", Placed::new(&bytes, 16384, 0)), ("odd multiple of the unit", Placed::new(&bytes, 2 * l2, l2))] {
             match guard(|| subj.eps(pl.bytes()).map(|o| o.val)) {
                 Ok(Ok(x)) if x == *v => {}
                 Ok(Ok(x)) => return Err(Fail::new("derive-eps-mismatch", format!("ε-copy ({}) changed the value: {}", what, x.show()))),
